@@ -19,7 +19,7 @@ int main(void) {
   struct iwpool *pool = iwpool_create(0);
   errno = ERANGE;
   rc = jbn_from_json("123", &n, pool);
-  ZB("fact_num_clears_errno", rc == 0);
+  ZB("fact_num_clears_errno", rc == 0 && n && n->type == JBV_I64);   // stale ERANGE: error, or (after jtext-bigint) a double
   n = 0;
   rc = jbn_from_json("\"\\r\"", &n, pool);            // which byte does the escape \r produce
   ZV("unesc_cr_byte", (!rc && n && n->vsize == 1) ? (unsigned char) n->vptr[0] : -1);
